@@ -139,7 +139,11 @@ void harness(void)
 	VP_ASSUME(!(NLEN == 1 && name[0] == '.') && !(NLEN == 2 && name[0] == '.' && name[1] == '.'));
 	for (i = 0; i < TLEN; ++i) {
 		target[i] = (char)ND_U8();
+#ifdef ALLOW_NL
+		VP_ASSUME(target[i] != 0);
+#else
 		VP_ASSUME(target[i] != 0 && target[i] != '\n');
+#endif
 #if MODE == 3
 		VP_ASSUME(target[i] != '/');	/* unpack root: one path component here */
 #endif
@@ -172,7 +176,17 @@ void harness(void)
 	ret = describe_tree(&NODE.n, MODE == 3 ? target : NULL);
 	VP_ASSERT(ret == 0, "describe prints every sane entry");
 	VP_ASSERT(cap_n >= 1 && cap[cap_n - 1] == '\n', "one line per entry");
+	/* what istream_get_line() hands to the parser: the bytes up to the first
+	   newline, minus one trailing carriage return (CRLF tolerance) */
+	{
+		size_t first_nl = 0;
+		for (i = 0; i < CAP; ++i) { if (i >= cap_n || cap[i] == '\n') break; first_nl++; }
+		VP_ASSERT(first_nl == cap_n - 1, "C16: an entry is exactly one line of the listing (no raw newline inside a token)");
+		if (first_nl != cap_n - 1) return;
+	}
 	cap[--cap_n] = 0;
+	if (cap_n > 0 && cap[cap_n - 1] == '\r')
+		cap[--cap_n] = 0;
 	ret = split_line(cap, cap_n, " \t", &sp);
 	VP_ASSERT(ret == SPLIT_LINE_OK, "C16: the tokeniser accepts the described line");
 	if (ret != SPLIT_LINE_OK)
